@@ -1,11 +1,15 @@
 (* Props/C01.v — property C01: XMI save / load is lossless.
-   The reader mechanism (CasXmiDeserializer) is modelled by the C05 builder; its theorem load_xmi_is_denotation
-   (doc_ok_xmi d -> load_xmi s d = Ok c -> canon_xmi c >>= norm = denote_xmi s d) composes with the theorems below into
-   xmi_roundtrip.  Until that lemma is imported here, C01's round trip is stated over the denotation of the document —
-   the independent reading of what was written — and named accordingly; that the implementation's reader returns that
-   denotation is checked on every run (CorrC01.check_load_is_denotation). *)
+   The round trip composes three developments: the writer (Xmi.v / XmiProofs.v: the written document denotes the canonical
+   content of the CAS), reachability (ReachProofs.v / ReachSpec.v through XmiWf.v and XmiDocOk.v: the written document is
+   closed and complete, for every well-formed input) and the reader (XmiLoad.v / XmiLoadProofs2.v: load_xmi_is_denotation
+   under reader_okb).  XmiRtProofs.v shows that the document written for a well-formed CAS satisfies reader_okb.
+   Premise: XmiRt.wf_rtb s c (boolean, counted per generated case) = Xmi.wf_inb s c (well-formedness of the input CAS, see
+   Props/C04.v) + the schema answers like a TypeSystem (schema_okb, sofa_feat_okb: C10 / C11), defines uima.cas.NULL,
+   type names survive the reader's string surgery on "{namespace}tag" (rtname_okb), the CAS has the view _InitialView and
+   every indexed structure with a sofa feature is indexed in the view of its own sofa. *)
 From Cassis Require Import Base Offsets.
-From Cassis Require Import Heap Schema Canon Lex LexProofs Reach XmiDoc Xmi XmiProofs CorrC04 CorrC01 XmiExample.
+From Cassis Require Import Heap Schema Canon Lex LexProofs Reach ReachProofs ReachSpec XmiDoc Xmi XmiProofs XmiWf XmiDocOk
+                           XmiLoad XmiRt XmiRtProofs CorrC04 CorrC01 XmiExample.
 Open Scope Z_scope.
 
 (* enc_dec_feature_xmi: for every feature declaration and every slot value that is well-typed for it (feat_okb), what the
@@ -24,18 +28,86 @@ Theorem C01_enc_dec_feature_xmi :
 Proof. exact enc_dec_feature_xmi. Qed.
 Print Assumptions C01_enc_dec_feature_xmi.
 
-(* xmi_roundtrip over the denotation: saving and reading the document back (by the independent denotation) gives the
-   canonical content of the CAS — same sofas and sofa data, same structures under the same xmi:ids with the same types,
-   values and reference targets (ccas is keyed by id, so this includes xmi_ids_kept), same members per view. *)
+(* Lemma: saving and reading the document back by the independent denotation gives the canonical content of the CAS — same
+   sofas and sofa data, same structures under the same xmi:ids with the same types, values and reference targets (ccas is
+   keyed by id), same members per view. *)
 Theorem C01_xmi_roundtrip_over_denotation :
   forall (fmt : flt -> string) (parse : string -> option flt),
   (forall x, parse (fmt x) = Some x) -> (forall x, tok_ok (fmt x)) ->
   forall s c d c',
-  save_xmi fmt s c = Ok (d, c') ->
-  (forall all, written s c = Ok (c', all) -> wf_xmib s c' all = true) ->
+  wf_casb s c = true -> save_xmi fmt s c = Ok (d, c') ->
   denote_xmi parse s d = (do x <- canon_xmi s c ;; Ok (norm_xmi s x)).
-Proof. exact denote_save_xmi. Qed.
+Proof. exact denote_save_xmi_wf. Qed.
 Print Assumptions C01_xmi_roundtrip_over_denotation.
+
+(* The document written for a well-formed CAS satisfies the premise of the reader's theorem C05_load_xmi_is_denotation:
+   it is closed (C04_doc_ok), has the _InitialView sofa and distinct view names, its elements are well-formed XML elements
+   of defined types named by the UIMA rule, annotations are members of the view of their own sofa only, the ids of cas:NULL
+   and the feature structure elements are pairwise distinct. *)
+Theorem C01_saved_document_is_readable :
+  forall (fmt : flt -> string) (parse : string -> option flt),
+  (forall x, parse (fmt x) = Some x) -> (forall x, tok_ok (fmt x)) ->
+  forall s c d c1, wf_rtb s c = true -> save_xmi fmt s c = Ok (d, c1) -> reader_okb parse s d = true.
+Proof. exact save_reader_ok. Qed.
+Print Assumptions C01_saved_document_is_readable.
+
+(* xmi_roundtrip through the reader mechanism: for every schema and every well-formed CAS, the CAS that the model of
+   CasXmiDeserializer builds from the document the model of CasXmiSerializer wrote has the canonical content of the CAS that
+   was saved (canon_xmi s c = canon_of s c1 (the structures written), C01_canon_is_of_saved_cas): same views and sofa data,
+   same feature structures under the same xmi:ids with the same types, feature values (offsets in code points) and reference
+   targets, same members per view — up to ""/null inside string arrays and lists.
+   PARTIAL in one respect: that the reader succeeds is a hypothesis (load_xmi ... = Ok c2).  Full statement:
+     wf_rtb s c = true -> save_xmi fmt s c = Ok (d, c1) ->
+     exists c2, load_xmi parse s false d = Ok c2 /\ canon_loaded s c2 = (do x <- canon_xmi s c ;; Ok (norm_xmi s x)).
+   The missing half is totality of the reader model on reader_okb documents, which XmiLoadProofs does not provide (its
+   theorems all take load_xmi = Ok as a hypothesis); on every generated case the implementation's reader does succeed and
+   is compared with the denotation (CorrC01.check_load_is_denotation), and the example below evaluates load_xmi to Ok. *)
+Theorem C01_xmi_roundtrip_partial :
+  forall (fmt : flt -> string) (parse : string -> option flt),
+  (forall x, parse (fmt x) = Some x) -> (forall x, tok_ok (fmt x)) ->
+  forall s c d c1 c2,
+  wf_rtb s c = true -> save_xmi fmt s c = Ok (d, c1) -> load_xmi parse s false d = Ok c2 ->
+  canon_loaded s c2 = (do x <- canon_xmi s c ;; Ok (norm_xmi s x)).
+Proof. exact xmi_roundtrip_load. Qed.
+Print Assumptions C01_xmi_roundtrip_partial.
+Theorem C01_canon_is_of_saved_cas :
+  forall s c c1 all, written s c = Ok (c1, all) -> canon_xmi s c = canon_of s c1 (sort_ids all).
+Proof. exact canon_xmi_after. Qed.
+Print Assumptions C01_canon_is_of_saved_cas.
+
+(* xmi_ids_kept: the loaded CAS has exactly the xmi:ids of the structures written (pairwise distinct); these are the ids the
+   structures carry after the save; a structure that had an xmi:id before the save still has it afterwards. *)
+Theorem C01_xmi_ids_kept :
+  forall (fmt : flt -> string) (parse : string -> option flt),
+  (forall x, parse (fmt x) = Some x) -> (forall x, tok_ok (fmt x)) ->
+  forall s c d c1 c2 cl,
+  wf_rtb s c = true -> save_xmi fmt s c = Ok (d, c1) -> load_xmi parse s false d = Ok c2 -> canon_loaded s c2 = Ok cl ->
+  exists all, written s c = Ok (c1, all)
+    /\ Permutation (map fst (cc_fs cl)) (map fst all) /\ NoDup (map fst all)
+    /\ (forall i o, In (i, o) all -> has_id (c_heap c1) o i)
+    /\ (forall o i, has_id (c_heap c) o i -> has_id (c_heap c1) o i).
+Proof. exact xmi_ids_kept. Qed.
+Print Assumptions C01_xmi_ids_kept.
+
+(* xmi_resave_identical, the part that is proved: two well-formed CASes with the same canonical content — the CAS that was
+   saved and any CAS carrying the content of the loaded one — write documents that are both closed and have the same
+   denotation.
+   NOT PROVED (full statement): under the same premises, and equal sofa lists, the two documents are equal up to element
+   and attribute order,  xdoc_perm_eqb da db = true  (CorrC04.xdoc_perm_eqb).  What is missing is the converse of the codec
+   lemmas: that every contribution of the writer (attribute / child elements) is a function of the canonical value of the
+   feature (an encoder from ccas, eleven branches).  The implementation's second to_xmi() is compared with the first at the
+   infoset level on every generated case (CorrC01.check_resave). *)
+Theorem C01_xmi_resave_identical_partial :
+  forall (fmt : flt -> string) (parse : string -> option flt),
+  (forall x, parse (fmt x) = Some x) -> (forall x, tok_ok (fmt x)) ->
+  forall s ca cb da db ca' cb',
+  wf_inb s ca = true -> wf_inb s cb = true ->
+  (do x <- canon_xmi s ca ;; Ok (norm_xmi s x)) = (do x <- canon_xmi s cb ;; Ok (norm_xmi s x)) ->
+  save_xmi fmt s ca = Ok (da, ca') -> save_xmi fmt s cb = Ok (db, cb') ->
+  denote_xmi parse s da = denote_xmi parse s db
+  /\ doc_ok_xmi parse s da = true /\ doc_ok_xmi parse s db = true.
+Proof. exact xmi_resave_same_denotation. Qed.
+Print Assumptions C01_xmi_resave_identical_partial.
 
 (* the lexical layer underneath: token lists, decimal integers, hex bytes, UTF-8 *)
 Theorem C01_tokens_roundtrip : forall l, Forall tok_ok l -> split_ws (join l) = l.
@@ -51,20 +123,19 @@ Theorem C01_utf8_roundtrip : forall t, Forall (fun c => (c < 1114112)%N) t -> ut
 Proof. exact utf8_rt. Qed.
 Print Assumptions C01_utf8_roundtrip.
 
-(* NOT PROVED HERE (full statements; both are compositions once C05's load_xmi_is_denotation and doc_ok (save c) exist):
-     xmi_roundtrip:
-       save_xmi fmt s c = Ok (d, c') -> wf -> load_xmi s false d = Ok c2 ->
-       (canon_xmi s c2 >>= norm_xmi s) = (canon_xmi s c >>= norm_xmi s)
-     xmi_resave_identical:
-       ... -> save_xmi fmt s c2 = Ok (d2, c2') -> d2 = d up to attribute order (elements in the same order).
-   Both are checked on every generated case against the implementation: CorrC01.check_roundtrip / check_resave. *)
-
 (* non-vacuity: the example CAS (two views, astral text, a cycle, an inline and a shared FSArray, an empty list, a
-   referenced-only annotation) satisfies wf_xmib and the round trip over the denotation computes *)
+   referenced-only annotation) with the type uima.cas.NULL added to its schema satisfies wf_rtb; the document the model
+   writes satisfies reader_okb, the model reader loads it, and the loaded CAS has the canonical content of the saved one *)
+Definition ex_schema_rt : schema := (ex_schema ++ [mkTi "uima.cas.NULL" ["uima.cas.NULL"; "uima.cas.TOP"] []])%list.
 Example C01_premises_hold :
-  (match written ex_schema ex_cas with Ok ca => wf_xmib ex_schema (fst ca) (snd ca) | _ => false end) = true
-  /\ (match save_xmi (tab_fmt ex_ftab) ex_schema ex_cas with
-      | Ok (d, _) => match denote_xmi (tab_parse ex_ftab) ex_schema d, canon_xmi ex_schema ex_cas with
-                     | Ok x, Ok y => ccas_eqb x (norm_xmi ex_schema y) | _, _ => false end
+  wf_rtb ex_schema_rt ex_cas = true
+  /\ (match save_xmi (tab_fmt ex_ftab) ex_schema_rt ex_cas with
+      | Ok (d, _) =>
+        reader_okb (tab_parse ex_ftab) ex_schema_rt d &&
+        match load_xmi (tab_parse ex_ftab) ex_schema_rt false d with
+        | Ok c2 => match canon_loaded ex_schema_rt c2, canon_xmi ex_schema_rt ex_cas with
+                   | Ok x, Ok y => ccas_eqb x (norm_xmi ex_schema_rt y) | _, _ => false end
+        | _ => false
+        end
       | _ => false end) = true.
 Proof. vm_compute. split; reflexivity. Qed.
